@@ -235,7 +235,7 @@ def structure_of(repo, func, e, ci):
         # assert isinstance(<name>, type(self.key|self.value))
         for n in walk_no_nested(func):
             if isinstance(n, ast.Assert):
-                b = match(f"isinstance({e.id}, type($t))", n.test)
+                b = match(f"isinstance(@{e.id}, type($t))", n.test)
                 if b is not None and dotted(b["t"]) in ("self.key",
                                                         "self.value"):
                     return dotted(b["t"]).split(".")[1].capitalize()
